@@ -604,6 +604,7 @@ func (e *Engine) verifyShard(fn *ssa.Function, fc *FuncContract, opts VerifyOpts
 		x.assumeAllocated(st, v)
 		args = append(args, v)
 		entryVars[p.Name()] = v
+		entryVars["param"+strconv.Itoa(len(args)-1)] = v
 		for i, t := range flatten(v) {
 			x.inputTerms = append(x.inputTerms, t)
 			cs := comps(p.Type())
